@@ -6,5 +6,6 @@ CONSTANTS
   CacheTransparent = TRUE
   SerialsMemoised = FALSE
   ScopeFixed = TRUE
+  TouchInvisible = TRUE
 INVARIANTS C19_SerialsStable
 CHECK_DEADLOCK FALSE
